@@ -705,6 +705,11 @@ pub(crate) async fn fashare(
             if !open_commitment(&commitments.0, d_bj) && !open_commitment(&commitments.1, d_bj) {
                 return Err(Error::CommitmentCouldNotBeOpened);
             }
+            // the decommitment of the bit and the MACs must be the one that was committed to
+            // before any party revealed its own
+            if !open_commitment(&commitments.2, &dm_k[k][r]) {
+                return Err(Error::CommitmentCouldNotBeOpened);
+            }
             if xor_xk_macs[k][r] != di_bi_k[k][r] {
                 return Err(Error::AShareWrongMAC);
             }
